@@ -97,6 +97,13 @@ TEMPLATES = [
     ('{[#P][#Q]}.{#P=[#a]=[>@l],#Q=[<@l]=[#b]}.{#a=[$]CC[$],#b=[$]CC[$]}', '{[#a]=[#b]}.{#a=[$]CC[$],#b=[$]CC[$]}'),
     ('{[#P][#Q]}.{#P=[#a]1[#b][#c]1[$@l],#Q=[$@l][#d]}.{#a=[$]C[$],#b=[$]C[$],#c=[$]C([$])[$],#d=[$]O}',
      '{[#a]1[#b][#c]1[#d]}.{#a=[$]C[$],#b=[$]C[$],#c=[$]C([$])[$],#d=[$]O}'),
+    # shared nodes at the intermediate level only (nothing shared at the last level)
+    ('{[#P][#Q]}.{#P=[#a][#b][!@l],#Q=[!@l][#b][#c]}.{#a=OC[$],#b=[$]CC[$],#c=[$]N}', '{[#a][#b][#c]}.{#a=OC[$],#b=[$]CC[$],#c=[$]N}'),
+    ('{[#P][#Q]}.{#P=[#a][#b][#e][!@l],#Q=[!@l][#e][#c]}.{#a=OC[$],#b=[$]CC[$],#c=[$]N,#e=[$]S[$]}',
+     '{[#a][#b][#e][#c]}.{#a=OC[$],#b=[$]CC[$],#c=[$]N,#e=[$]S[$]}'),
+    # directed descriptors with the '<' half listed first in the base graph (index 9; also run under legacy=False)
+    ('{[#Y][#X]}.{#X=[#a][#b][>@l],#Y=[<@l][#c][#d]}.{#a=C[$],#b=[$]C[$],#c=[$]N[$],#d=[$]O}',
+     '{[#a][#b][#c][#d]}.{#a=C[$],#b=[$]C[$],#c=[$]N[$],#d=[$]O}'),
     # a fragment name used at two levels (each level has its own name space)
     ('{[#A][#B]}.{#A=[#P][#A][>@l],#B=[<@l][#B][#Q]}.{#P=O[$],#A=[$]C[$],#B=[$]N[$],#Q=[$]S}',
      '{[#P][#A][#B][#Q]}.{#P=O[$],#A=[$]C[$],#B=[$]N[$],#Q=[$]S}'),
@@ -164,6 +171,9 @@ class C06(core.Prop):
                             out.append({'case': s, 'groups': [grp, grp2], 'aa': True})
         for i in range(len(TEMPLATES)):
             out.append({'mode': 'tmpl', 'idx': i, 'aa': True})
+            if '<' in TEMPLATES[i][0] and '@m' not in TEMPLATES[i][0]:
+                # the label-insensitive convention (legacy=False): one descriptor pair per edge, so nothing becomes ambiguous
+                out.append({'mode': 'tmpl', 'idx': i, 'aa': True, 'legacy': False})
         return out
 
     @staticmethod
@@ -197,18 +207,19 @@ class C06(core.Prop):
     def execute(self, M, shape, inp):
         R = M.resolve.MoleculeResolver
         aa = shape['aa']
+        lg = shape.get('legacy', True)
 
         def snapshot(meta, mol):
             return {'meta': pl.meta_data(meta), 'mol': pl.graph_data(mol)}
 
         def run():
             steps = []
-            r1 = R.from_string(inp['text'], last_all_atom=aa)
+            r1 = R.from_string(inp['text'], last_all_atom=aa, legacy=lg)
             for _ in range(inp['nlevels']):
                 steps.append(snapshot(*r1.resolve()))
-            it = [snapshot(m, g) for m, g in R.from_string(inp['text'], last_all_atom=aa).resolve_iter()]
-            al = snapshot(*R.from_string(inp['text'], last_all_atom=aa).resolve_all())
-            two = snapshot(*R.from_string(inp['two_level']).resolve()) if aa else None
+            it = [snapshot(m, g) for m, g in R.from_string(inp['text'], last_all_atom=aa, legacy=lg).resolve_iter()]
+            al = snapshot(*R.from_string(inp['text'], last_all_atom=aa, legacy=lg).resolve_all())
+            two = snapshot(*R.from_string(inp['two_level'], legacy=lg).resolve()) if aa else None
             return {'steps': steps, 'iter': it, 'all': al, 'two': two}
         return core.guard(run)
 
